@@ -8,6 +8,18 @@ import sys
 VERIF = os.path.dirname(os.path.dirname(os.path.abspath(__file__)))
 
 CLAIMED = {
+    "C04": dict(
+        technique="contract-vs-implementation path check of every inserting operation and getter, per-type release table (T-release) extracted from cbor_decref's paths against the constructor table, ownership-balance typestate over every library function",
+        text="Inductive argument with three machine-checked premises: (A) each API operation has exactly its documented "
+             "refcount effect on every path (+1 and one slot on success, nothing on failure; getters +1 on the returned "
+             "element; replace drops the displaced one); only incref/decref/move/constructors write the count; (B) "
+             "cbor_decref, per type, releases every owned child slot once (loop bounded by the container's own count, "
+             "NULL slots skipped only when NULL), frees data exactly where the constructors own it separately, never an "
+             "interior pointer, frees the item last and once, and touches nothing afterwards; (C) every library function "
+             "is a balanced client on every path. Holds for all histories by induction on A-C.",
+        note="The induction itself is an argument in DESIGN.md. Aliasing hazards needing the same item on both sides of a "
+             "call are not decided. Loops are analysed for 0 and 1 iterations and generalised by their counted-loop shape.",
+        design="§4 C04"),
     "C05": dict(
         technique="path enumeration of cbor_load and of every builder callback: must-define of result fields, extracted cause->code table vs the property's table, position/read bookkeeping, no-silent-drop",
         text="Every path of cbor_load (decode loop unrolled once more) is classified by the facts that led to the error "
